@@ -44,7 +44,8 @@ def main():
       print(f'{prop}: replay of {a.replay} passes')
       return 0
     if a.selftest:
-      return mod.selftest(a.tier, seed)
+      from harness import selftest
+      return selftest.run(prop, a.tier)
     ctx = common.Ctx(prop, a.tier, seed)
     return mod.run(ctx)
   except common.MachineryError as ex:
